@@ -1,8 +1,24 @@
-SPEC = {
+import importlib.util, os
+_sp = importlib.util.spec_from_file_location("c01spec", os.path.join(os.path.dirname(os.path.abspath(__file__)), "C01.py"))
+_m = importlib.util.module_from_spec(_sp); _sp.loader.exec_module(_m)
+SPEC = dict(_m.SPEC)
+SPEC.update({
     "props": "Props/C05.v",
-    "check_vo": ["Model/PoolCheck.vo"],
-    "driver": "c01",
     "driver_args": ["-prop", "C05"],
-    "component": "address/prefix pools",
-    "clauses": {3: "exhausted_only_if_full", 4: "returns_to_circulation", 5: "renew_protects", 6: "stats_exact", 9: "malformed trace"},
+    "clauses": {3: "exhausted_only_if_full: exhaustion reported while a usable unit has no live holder",
+                4: "returns_to_circulation: release of a live holder refused / released or expired lease still reported",
+                5: "renew_protects: a live (renewed within grace) lease refused, lost or reported absent",
+                6: "stats_exact: allocated / total / utilisation differ from the true counts",
+                9: "malformed trace"},
+})
+SPEC["assumptions"] = _m._ASSUME + [
+    "leaks are observed when the history fills the pool (every small history ends with capacity+1 allocations by fresh holders) or through Stats; pools without a Stats API (v6 pools, pppoe) are observed through exhaustion only",
+    "epoch allocator: stats_exact under the guard is tied (guarded stream) but not proved; exhausted_only_if_full and release are proved under the guard",
+    "failed persistence (store write failure) belongs to DistributedAllocator: see C12",
+]
+MANIFEST = {
+    "text": "Same Models and streams as C01, acceptor clauses of C05. Bitmap: exhaustion only when every unit is held, release frees, a free unit is served at once, Stats = true counts - proved for all histories and all geometries below 2^64 units (at 2^64 the Uint64() truncation makes an empty pool 'exhausted': refuted, known finding K05b/K05c); SetAllocation double count fixed (46ed00d). Epoch allocator: renew_protects proved in full (any later history with <= grace epoch advances keeps the lease); the 2-bit generation wrap and grace >= 2 refute exhausted_only_if_full / stats_exact (witnesses replayed on the real allocator, known findings K05d/K05e with ghost markers) and both are proved under the decidable guard 'grace = 1 and no usable slot's true age >= 4'. Free lists: conservation invariant (every unit is free, held or declared unavailable) for every history; pppoe.IPPool leak fixed (9686c62).",
+    "note": "Theorems are about the Models; tie as in C01 plus epoch-advance bursts 0..9, identical-record reloads 1..3 times, Stats after operations. Store-failure rollback is C12's subject.",
+    "technique": "Rocq proof (invariants over all histories, ghost unbounded generation for the 2-bit epoch tags, pigeonhole via NoDup_incl_length) + differential correspondence and trace monitor",
+    "design_ref": "DESIGN.md §8 C05",
 }
